@@ -30,6 +30,7 @@ typedef struct {
 	unsigned seed;
 	uint64_t id;                    /* request id seen on the wire (0 until fully sent) */
 	time_t add_time, sent_time;
+	long add_step;
 	int sent_complete, valid_reply_arrived, id_reply_arrived, stale_id_reply_arrived, returned;
 	int answered;                   /* server side: a valid reply was queued */
 } sreq_t;
@@ -53,8 +54,9 @@ typedef struct {
 	uint64_t last_returned_id;
 	size_t budget;                  /* bytes the client may still read */
 	int next_connect_refused, next_connect_pending, send_wouldblock, send_partial;
-	int cause_baddata, cause_status, cause_conn, cause_connect_pending;
+	int cause_baddata, cause_status, cause_conn, cause_connect_pending, cause_connect_timeout;
 	time_t connect_started; int connecting;
+	long step;                      /* events applied so far */
 	int conf_pending;               /* authentic pushed configurations that reached the client and are not yet accounted for by a returned notice */
 	int violated;
 } world_t;
@@ -67,8 +69,8 @@ static int g_cfg;
 static int h_connect(sn_conn *c) {
 	(void)c;
 	W.connecting = 1; W.connect_started = sn_now;
-	if (W.next_connect_refused) { W.next_connect_refused = 0; W.cause_conn = 1; W.connecting = 0; return -ECONNREFUSED; }
-	if (W.next_connect_pending) { W.next_connect_pending = 0; W.cause_connect_pending = 1; return 1000000; }   /* stays pending */
+	if (W.next_connect_refused) { W.next_connect_refused = 0; W.cause_conn = (int)W.step + 1; W.connecting = 0; return -ECONNREFUSED; }
+	if (W.next_connect_pending) { W.next_connect_pending = 0; W.cause_connect_pending = (int)W.step + 1; return 1000000; }   /* stays pending */
 	return 0;
 }
 static long h_send(sn_conn *c, const void *buf, size_t len) {
@@ -103,7 +105,7 @@ static long h_recv(sn_conn *c, size_t avail, size_t cap) {
 	size_t k = avail < cap ? avail : cap;
 	if (k > W.budget) k = W.budget;
 	if (k == 0) {
-		if (avail == 0 && c->peer_closed) { W.cause_conn = 1; return 0; }
+		if (avail == 0 && c->peer_closed) { W.cause_conn = (int)W.step + 1; return 0; }
 		return -EWOULDBLOCK;
 	}
 	W.budget -= k;
@@ -197,8 +199,8 @@ static void note_arrivals(void) {
 		switch (rp->kind) {
 			case 0: for (j = 0; j < W.nreq; j++) if (W.req[j].id == rp->id && W.req[j].sent_complete && !W.req[j].returned) { W.req[j].id_reply_arrived = 1; if (W.req[j].seed == rp->seed) W.req[j].valid_reply_arrived = 1; } break;
 			case 4: for (j = 0; j < W.nreq; j++) if (W.req[j].id == rp->id && W.req[j].sent_complete && !W.req[j].returned) { W.req[j].id_reply_arrived = 1; if (W.req[j].seed == rp->seed) W.req[j].valid_reply_arrived = 1; else if (!W.req[j].valid_reply_arrived) W.req[j].stale_id_reply_arrived = 1; } break;
-			case 1: W.cause_baddata = 1; break;
-			case 2: W.cause_status = 1; break;
+			case 1: W.cause_baddata = (int)W.step + 1; break;
+			case 2: W.cause_status = (int)W.step + 1; break;
 			case 3: W.conf_pending++; break;
 			default: break;
 		}
@@ -244,12 +246,13 @@ static void check_returned(KSI_AsyncHandle *h) {
 	} else if (state == KSI_ASYNC_STATE_ERROR) {
 		const char *cls = "other";
 		int explained = 0;
-		if (err >= 0x400 && err < 0x600) { cls = "service-status"; explained = W.cause_status; }
+		long since = 0;   /* cause flags are cleared at every quiescent point (see quiescent_reset) */
+		if (err >= 0x400 && err < 0x600) { cls = "service-status"; explained = W.cause_status > since; }
 		else if (err == KSI_NETWORK_SEND_TIMEOUT) { cls = "send-timeout"; explained = W.cfg.snd == 0 || difftime(sn_now, W.req[idx].add_time) > W.cfg.snd; }
 		else if (err == KSI_NETWORK_RECIEVE_TIMEOUT) { cls = "receive-timeout"; explained = W.req[idx].sent_complete && (W.cfg.rcv == 0 || difftime(sn_now, W.req[idx].sent_time) > W.cfg.rcv); }
-		else if (err == KSI_NETWORK_CONNECTION_TIMEOUT) { cls = "connection-timeout"; explained = W.cause_connect_pending && (W.cfg.con == 0 || difftime(sn_now, W.connect_started) > W.cfg.con); }
-		else if (err == KSI_NETWORK_ERROR || err == KSI_ASYNC_CONNECTION_CLOSED || err == KSI_IO_ERROR) { cls = "connection"; explained = W.cause_conn; }
-		else { cls = "bad-data"; explained = W.cause_baddata || W.cause_status; }   /* malformed or unauthenticated data on the connection */
+		else if (err == KSI_NETWORK_CONNECTION_TIMEOUT) { cls = "connection-timeout"; explained = W.cause_connect_timeout > since; }
+		else if (err == KSI_NETWORK_ERROR || err == KSI_ASYNC_CONNECTION_CLOSED || err == KSI_IO_ERROR) { cls = "connection"; explained = W.cause_conn > since; }
+		else { cls = "bad-data"; explained = W.cause_baddata > since || W.cause_status > since; }   /* malformed or unauthenticated data on the connection */
 		vf_outcome("returned:error:%s", cls);
 		if (!explained) { HF("error-without-cause", "request #%d returned with error 0x%x (%s) but no such cause occurred (status=%d baddata=%d conn=%d, now-add=%ld, sent=%d now-sent=%ld)", idx, err, cls, W.cause_status, W.cause_baddata, W.cause_conn, (long)(sn_now - W.req[idx].add_time), W.req[idx].sent_complete, (long)(sn_now - W.req[idx].sent_time)); W.violated = 1; }
 	} else {
@@ -261,8 +264,13 @@ static void check_returned(KSI_AsyncHandle *h) {
 static void do_run(void) {
 	KSI_AsyncHandle *out = NULL;
 	size_t waiting = 9999, pend = 0, recvd = 0;
-	int res = KSI_AsyncService_run(W.svc, &out, &waiting);
+	int res;
+	/* a connection attempt that is still pending when its time is up (or with a zero timeout) is a cause that occurs now */
+	if (W.connecting && (W.cfg.con == 0 || difftime(sn_now, W.connect_started) > W.cfg.con)) W.cause_connect_timeout = (int)W.step + 1;
+	res = KSI_AsyncService_run(W.svc, &out, &waiting);
 	vf_count("impl_calls", 1);
+	if (W.cause_connect_pending && (W.cfg.con == 0 || difftime(sn_now, W.connect_started) > W.cfg.con)) W.cause_connect_timeout = (int)W.step + 1;
+	{ sn_conn *lc = sn_last(); if (lc && lc->state == SN_CLOSED_BY_CLIENT) W.connecting = 0; }
 	note_arrivals();
 	if (res != KSI_OK) vf_outcome("run:error");
 	if (out) check_returned(out);
@@ -279,7 +287,22 @@ static void do_run(void) {
 }
 
 /* apply one event; returns 0 when the event is not enabled in this state */
-static int apply(int ev) {
+static int apply_inner(int ev);
+/* a cause explains an error only if it occurred since the system was last quiescent: nothing outstanding, nothing
+ * in flight on the wire, nothing buffered or queued inside the client */
+static void quiescent_reset(void) {
+	KSI_AsyncClient *ac = (KSI_AsyncClient *)W.svc->impl;
+	TcpAsyncCtx *tc = (TcpAsyncCtx *)ac->clientImpl;
+	sn_conn *c = sn_last();
+	int k;
+	if (outstanding() != 0 || W.connecting) return;
+	if (tc->inLen != 0 || KSI_OctetStringList_length(tc->respQueue) != 0 || KSI_AsyncHandleList_length(tc->reqQueue) != 0) return;
+	if (c && c->state == SN_CONNECTED && c->in.n != c->in_off) return;
+	for (k = 0; k < W.nreply; k++) if (!W.reply[k].arrived && c && W.reply[k].conn_seq == c->seq && c->state == SN_CONNECTED) return;
+	W.cause_baddata = W.cause_status = W.cause_conn = W.cause_connect_pending = W.cause_connect_timeout = 0;
+}
+static int apply(int ev) { int r = apply_inner(ev); if (r) { W.step++; quiescent_reset(); } return r; }
+static int apply_inner(int ev) {
 	sn_conn *c = live_conn();
 	vbuf b;
 	int i, oldest = -1, newest = -1, nun = 0;
@@ -300,7 +323,7 @@ static int apply(int ev) {
 			if (res == KSI_OK) {
 				if (outstanding() >= W.cfg.cache) { HF("cache-overfull", "request accepted although %d requests are outstanding with cache size %d", outstanding(), W.cfg.cache); W.violated = 1; }
 				memset(&W.req[W.nreq], 0, sizeof W.req[0]);
-				W.req[W.nreq].h = h; W.req[W.nreq].seed = 100u + (unsigned)W.total_added; W.total_added++; W.req[W.nreq].add_time = sn_now; W.nreq++;
+				W.req[W.nreq].h = h; W.req[W.nreq].seed = 100u + (unsigned)W.total_added; W.total_added++; W.req[W.nreq].add_time = sn_now; W.req[W.nreq].add_step = W.step; W.nreq++;
 				vf_outcome("add:accepted");
 			} else {
 				if (res == KSI_ASYNC_REQUEST_CACHE_FULL) {
@@ -436,12 +459,12 @@ static uint64_t state_key(void) {
 		if (c) { h = mix(h, c->peer_closed); h = mix(h, c->out.n - c->parsed_out); h = mix(h, c->in.n - c->in_off); h = vf_fnv(c->in.p + c->in_off, c->in.n - c->in_off, h); h = mix(h, c->connect_polls > 0); }
 	}
 	h = mix(h, W.budget); h = mix(h, (uint64_t)W.next_connect_refused); h = mix(h, (uint64_t)W.next_connect_pending); h = mix(h, (uint64_t)W.send_wouldblock); h = mix(h, (uint64_t)W.send_partial);
-	h = mix(h, (uint64_t)(W.cause_baddata | W.cause_status << 1 | W.cause_conn << 2 | W.cause_connect_pending << 3 | W.conf_pending << 4 | W.connecting << 5));
+	h = mix(h, (uint64_t)((W.cause_baddata != 0) | (W.cause_status != 0) << 1 | (W.cause_conn != 0) << 2 | (W.cause_connect_pending != 0) << 3 | (W.cause_connect_timeout != 0) << 6 | W.conf_pending << 4 | W.connecting << 5));
 	h = mix(h, (uint64_t)W.nreq); h = mix(h, (uint64_t)W.nreturned); h = mix(h, W.last_valid_reply.n != 0); h = mix(h, W.last_returned_id);
 	for (k = 0; k < W.nreq; k++) {
 		sreq_t *r = &W.req[k];
 		if (r->returned) continue;
-		h = mix(h, (uint64_t)(r->sent_complete | r->valid_reply_arrived << 1 | r->answered << 2)); h = mix(h, r->id); h = mix(h, age(r->add_time, maxto)); h = mix(h, r->sent_complete ? age(r->sent_time, maxto) : 77);
+		h = mix(h, (uint64_t)(r->sent_complete | r->valid_reply_arrived << 1 | r->answered << 2 | r->id_reply_arrived << 3 | r->stale_id_reply_arrived << 4 | 0)); h = mix(h, r->id); h = mix(h, age(r->add_time, maxto)); h = mix(h, r->sent_complete ? age(r->sent_time, maxto) : 77);
 	}
 	for (k = 0; k < W.nreply; k++) if (!W.reply[k].arrived) { h = mix(h, (uint64_t)W.reply[k].kind); h = mix(h, W.reply[k].id); }
 	return h;
@@ -556,6 +579,54 @@ static void part_wrap(void) {
 	}
 }
 
+/* deviation-bounded search over long default runs: the default schedule is three complete request cycles
+ * (add, run, reply, deliver all, run, clock+1); a deviation is the insertion of any one event at any position;
+ * all schedules with up to D deviations are executed to completion and followed by the drain phase */
+static const int BASE[] = {EV_ADD, EV_RUN, EV_REPLY_OLDEST, EV_DELIVER_ALL, EV_RUN, EV_CLOCK_1, EV_ADD, EV_RUN, EV_REPLY_OLDEST, EV_DELIVER_ALL, EV_RUN, EV_CLOCK_1,
+                           EV_ADD, EV_RUN, EV_REPLY_OLDEST, EV_DELIVER_ALL, EV_RUN};
+#define NBASE ((int)(sizeof BASE / sizeof *BASE))
+static long dfs_runs;
+static void run_schedule(const config_t *cfg, const int *ins_pos, const int *ins_ev, int nins) {
+	int i, k, n = 0;
+	char *g = g_hist;
+	world_open(cfg);
+	g_cfg = (int)(cfg - CONFIGS);
+	for (i = 0; i <= NBASE && !W.violated; i++) {
+		for (k = 0; k < nins; k++) if (ins_pos[k] == i) { if (n < 38) g[n++] = EVCH[ins_ev[k]]; g[n] = 0; apply(ins_ev[k]); n_transitions++; }
+		if (i < NBASE) { if (n < 38) g[n++] = (char)(EVCH[BASE[i]] | 0x20) == EVCH[BASE[i]] ? EVCH[BASE[i]] : EVCH[BASE[i]]; g[n] = 0; apply(BASE[i]); n_transitions++; }
+	}
+	if (!W.violated) drain();
+	world_close();
+	dfs_runs++;
+}
+static void part_dfs(void) {
+	int maxdev = VF_THOROUGH ? 3 : 2, ci, p1, e1;
+	static const int CFG_IDX[] = {1, 0, 5};
+	for (ci = 0; ci < (VF_THOROUGH ? 3 : 1); ci++) for (p1 = 0; p1 <= NBASE; p1++) for (e1 = 0; e1 < EV_NEVENTS; e1++) {
+		const config_t *cfg = &CONFIGS[CFG_IDX[ci]];
+		int pos[3], evs[3], p2, e2, p3, e3;
+		if (!vf_case_begin("dfs:cfg%d:ins%d%c:dev%d", CFG_IDX[ci], p1, EVCH[e1], maxdev)) continue;
+		dfs_runs = 0; n_transitions = 0;
+		pos[0] = p1; evs[0] = e1;
+		if (p1 == 0 && e1 == 0) run_schedule(cfg, pos, evs, 0);       /* the default schedule itself */
+		run_schedule(cfg, pos, evs, 1);
+		/* insertions are ordered (position, then event) so that every multiset of insertions is run once */
+		for (p2 = p1; p2 <= NBASE && maxdev >= 2; p2++) for (e2 = 0; e2 < EV_NEVENTS; e2++) {
+			if (p2 == p1 && e2 < e1) continue;
+			pos[1] = p2; evs[1] = e2;
+			run_schedule(cfg, pos, evs, 2);
+			for (p3 = p2; p3 <= NBASE && maxdev >= 3; p3++) for (e3 = 0; e3 < EV_NEVENTS; e3++) {
+				if (p3 == p2 && e3 < e2) continue;
+				pos[2] = p3; evs[2] = e3;
+				run_schedule(cfg, pos, evs, 3);
+			}
+		}
+		vf_count("traces", dfs_runs); vf_count("transitions", n_transitions); vf_count("dfs_schedules", dfs_runs);
+		vf_obs("runs=%ld", dfs_runs);
+		vf_case_end(1);
+	}
+}
+
 static void run(void) {
 	int ci, e1, e2;
 	int depth = VF_THOROUGH ? 8 : 6;
@@ -583,6 +654,7 @@ static void run(void) {
 	}
 	free(seen);
 	part_wrap();
+	part_dfs();
 }
 
 int main(int argc, char **argv) {
